@@ -531,6 +531,63 @@ impl From<vas::Error> for Error {
     }
 }
 
+/// Read-only copy of the private table state, for the verification harness.
+#[cfg(h3_verif)]
+#[derive(Debug, Clone, PartialEq)]
+pub struct VerifSnapshot {
+    pub curr_size: usize,
+    pub max_size: usize,
+    pub inserted: usize,
+    pub dropped: usize,
+    pub fields: Vec<(Vec<u8>, Vec<u8>)>,
+    pub track_map: Vec<(usize, usize)>,
+    pub track_blocks: Vec<(u64, Vec<Vec<(usize, usize)>>)>,
+    pub largest_known_received: usize,
+    pub blocked_max: usize,
+    pub blocked_count: usize,
+    pub blocked_streams: Vec<(usize, usize)>,
+}
+
+#[cfg(h3_verif)]
+impl DynamicTable {
+    pub fn verif_snapshot(&self) -> VerifSnapshot {
+        let mut track_blocks: Vec<(u64, Vec<Vec<(usize, usize)>>)> = self
+            .track_blocks
+            .iter()
+            .map(|(s, q)| {
+                (
+                    *s,
+                    q.iter()
+                        .map(|m| {
+                            let mut v: Vec<(usize, usize)> = m.iter().map(|(a, b)| (*a, *b)).collect();
+                            v.sort();
+                            v
+                        })
+                        .collect(),
+                )
+            })
+            .collect();
+        track_blocks.sort();
+        VerifSnapshot {
+            curr_size: self.curr_size,
+            max_size: self.max_size,
+            inserted: self.vas.total_inserted(),
+            dropped: self.vas.total_inserted() - self.vas.largest_ref(),
+            fields: self
+                .fields
+                .iter()
+                .map(|f| (f.name.to_vec(), f.value.to_vec()))
+                .collect(),
+            track_map: self.track_map.iter().map(|(a, b)| (*a, *b)).collect(),
+            track_blocks,
+            largest_known_received: self.largest_known_received,
+            blocked_max: self.blocked_max,
+            blocked_count: self.blocked_count,
+            blocked_streams: self.blocked_streams.iter().map(|(a, b)| (*a, *b)).collect(),
+        }
+    }
+}
+
 #[cfg(test)]
 mod tests {
     #![allow(clippy::identity_op)]
